@@ -547,6 +547,11 @@ func checkMain(propID, build, verif, tier string, seed int64) int {
 	exit := 0
 	seen := map[string]bool{}
 	_ = os.MkdirAll(filepath.Join(verif, "replays"), 0o755)
+	if stale, _ := filepath.Glob(filepath.Join(verif, "replays", propID+"-*.json")); len(stale) > 0 {
+		for _, f := range stale {
+			_ = os.Remove(f)
+		}
+	}
 	nviol := 0
 	for _, sc := range total.Violations {
 		if seen[sc.Violation.Sig] {
